@@ -94,6 +94,8 @@ func (s *LintSource) FromString(src string) {
 		*s = RFC5480
 	case RFC5891:
 		*s = RFC5891
+	case RFC6960:
+		*s = RFC6960
 	case RFC6962:
 		*s = RFC6962
 	case RFC8813:
